@@ -34,7 +34,7 @@ def _snapshot(v: V) -> V:
             n._minextra = v._minextra  # type: ignore[attr-defined]
         return n
     if isinstance(v, AbsList):
-        return AbsList(v.elem, v.minlen)
+        return AbsList(v.elem, v.minlen, v.order)
     return v
 
 
@@ -474,13 +474,13 @@ class Interp(ExprMixin):
         if isinstance(v, (PyTuple, PyList)) and not (isinstance(v, PyList) and v.loop_parts):
             if (not has_star and len(v.items) != n) or (has_star and len(v.items) < n - 1):
                 self.event("unpack_mismatch", have=len(v.items), want=n)
-                self.may_raise("builtins.ValueError")
+                self.may_raise("builtins.ValueError", definite=True)
                 raise PathAbort()
             return list(v.items)
         if isinstance(v, Const) and isinstance(v.v, (tuple, list)):
             if (not has_star and len(v.v) != n) or (has_star and len(v.v) < n - 1):
                 self.event("unpack_mismatch", have=len(v.v), want=n)
-                self.may_raise("builtins.ValueError")
+                self.may_raise("builtins.ValueError", definite=True)
                 raise PathAbort()
             return [Const(x) for x in v.v]
         if isinstance(v, AbsList):
@@ -611,39 +611,30 @@ class Interp(ExprMixin):
                     else:
                         names.append(repr(x))
             handlers.append((names, h))
-        # choice: body completes (0) or the k-th handler runs because something in the body raised
-        which = self.choose(1 + len(handlers), f"try@{module.loc(st)}")
-        if which == 0:
-            saved = self.try_stack
-            self.try_stack = saved + [[n for names, _ in handlers for n in names]]
-            try:
-                self.exec_block(st.body, env, module)
-            except _Raise as r:
-                self.try_stack = saved
-                # an explicit raise inside the body: dispatch to a matching handler
-                h = self._match_handler(r.exc, handlers)
-                if h is None:
-                    self._finally(st, env, module)
-                    raise
-                self._run_handler(h, r.exc, env, module)
-                self._finally(st, env, module)
-                return
-            except _Return:
-                self.try_stack = saved
+        # Operations inside the body that can raise fork *at the operation* (see may_raise /
+        # external_may_raise); an explicit or forked raise is dispatched to the matching handler.
+        saved = self.try_stack
+        self.try_stack = saved + [[n for names, _ in handlers for n in names]]
+        try:
+            self.exec_block(st.body, env, module)
+        except _Raise as r:
+            self.try_stack = saved
+            h = self._match_handler(r.exc, handlers)
+            if h is None:
                 self._finally(st, env, module)
                 raise
-            finally:
-                self.try_stack = saved
-            self.exec_block(st.orelse, env, module)
+            self.event("handler_entered", types=[n for names, hh in handlers if hh is h for n in names],
+                       where=module.loc(h), exc=r.exc)
+            self._run_handler(h, r.exc, env, module)
             self._finally(st, env, module)
             return
-        names, h = handlers[which - 1]
-        self.cond(f"raised@{module.loc(st)}", names[0] if names else "?")
-        # the statements of the body that precede the raising operation are not replayed; bodies
-        # in this code base are one or two statements (see DESIGN appendix D)
-        self.event("handler_entered", types=names, where=module.loc(h))
-        exc = Sym("caught", tuple(names), module.loc(st))
-        self._run_handler(h, exc, env, module)
+        except _Return:
+            self.try_stack = saved
+            self._finally(st, env, module)
+            raise
+        finally:
+            self.try_stack = saved
+        self.exec_block(st.orelse, env, module)
         self._finally(st, env, module)
 
     def _finally(self, st: ast.Try, env, module):
@@ -664,28 +655,76 @@ class Interp(ExprMixin):
                     return h
         return None
 
-    def exc_class(self, exc: V) -> Optional[str]:
+    def exc_class(self, exc) -> Optional[str]:
         if isinstance(exc, Sym) and exc.op == "exc" and isinstance(exc.args[0], RefV):
             return exc.args[0].qual
         if isinstance(exc, RefV):
             return exc.qual
         return None
 
+    BUILTIN_EXC_BASES = {
+        "KeyError": "LookupError", "IndexError": "LookupError", "LookupError": "Exception",
+        "UnicodeError": "ValueError", "ValueError": "Exception", "TypeError": "Exception",
+        "AttributeError": "Exception", "StopIteration": "Exception", "ArithmeticError": "Exception",
+        "ZeroDivisionError": "ArithmeticError", "OverflowError": "ArithmeticError", "RuntimeError": "Exception",
+        "NotImplementedError": "RuntimeError", "RecursionError": "RuntimeError", "ImportError": "Exception",
+        "AssertionError": "Exception", "NameError": "Exception", "OSError": "Exception",
+        "Exception": "BaseException",
+    }
+
     def exc_isa(self, q: str, base: str) -> bool:
-        if q == base or base in ("builtins.BaseException", "builtins.Exception", "BaseException", "Exception"):
+        if q == base:
             return True
+        bs = base.rsplit(".", 1)[-1]
         if q in self.repo.classes:
-            return base in self.repo.mro(q)
+            for m in self.repo.mro(q):
+                if m == base or (m.rsplit(".", 1)[-1] == bs and (m.startswith("builtins.") or "." not in m)):
+                    return True
+                if m.startswith("builtins.") and self._builtin_isa(m.rsplit(".", 1)[-1], bs):
+                    return True
+            return False
+        return self._builtin_isa(q.rsplit(".", 1)[-1], bs)
+
+    def _builtin_isa(self, short: str, base_short: str) -> bool:
+        cur: Optional[str] = short
+        for _ in range(8):
+            if cur == base_short:
+                return True
+            cur = self.BUILTIN_EXC_BASES.get(cur)  # type: ignore[arg-type]
+            if cur is None:
+                return False
         return False
 
-    def may_raise(self, excq: str, what: str = ""):
-        """A partial operation that can raise `excq`: caught if an enclosing try names it."""
-        short = excq.rsplit(".", 1)[-1]
-        caught = any(short == n.rsplit(".", 1)[-1] or n.rsplit(".", 1)[-1] in ("Exception", "BaseException")
-                     or (short in ("KeyError", "IndexError") and n.rsplit(".", 1)[-1] == "LookupError")
-                     for names in self.try_stack for n in names)
-        self.event("may_raise", exc=excq, what=what, caught=caught,
+    def _caught_by_enclosing(self, excq: str) -> bool:
+        return any(self.exc_isa(excq, n) for names in self.try_stack for n in names)
+
+    def may_raise(self, excq: str, what: str = "", definite: bool = False):
+        """A partial operation that can raise `excq`. If an enclosing try names it, the path forks
+        here (raise now / continue); otherwise the possibility is only recorded."""
+        caught = self._caught_by_enclosing(excq)
+        self.event("may_raise", exc=excq, what=what, caught=caught, definite=definite,
                    func=self.stack[-1][0] if self.stack else "")
+        if caught and not definite:
+            if self.choose(2, f"raise:{excq}") == 1:
+                self.cond(f"raises {excq.rsplit('.', 1)[-1]}", what or self.cur_where)
+                raise _Raise(self.make_exc(excq), self.cur_where)
+
+    def external_may_raise(self, what: str = ""):
+        """An opaque operation (external call, node property, dynamic lookup): it may raise any of the
+        exception types the enclosing try statements are prepared for."""
+        types: List[str] = []
+        for names in reversed(self.try_stack):
+            for n in names:
+                if n not in types:
+                    types.append(n)
+        if not types:
+            return
+        c = self.choose(1 + len(types), "extraise")
+        if c:
+            t = types[c - 1]
+            self.cond(f"raises {t.rsplit('.', 1)[-1]}", what or self.cur_where)
+            self.event("external_raise", exc=t, what=what)
+            raise _Raise(self.make_exc(t), self.cur_where)
 
     # ------------------------------------------------------------------------------------
     # truthiness & comparisons
